@@ -188,10 +188,12 @@ def add_deaths(traces, info):
 # --------------------------------------------------------------------------------------
 # TLC
 
-def run_tlc(workdir, module, cfg, workers=1, timeout=600, xmx="4g", extra=None, deque=False, simulate=None, depth=None, seed=None):
+def run_tlc(workdir, module, cfg, workers=1, timeout=600, xmx="4g", extra=None, deque=False, simulate=None, depth=None, seed=None, light=False):
     meta = os.path.join(workdir, "meta")
     shutil.rmtree(meta, ignore_errors=True)
     cmd = ["timeout", str(int(timeout)), "java", "-XX:+UseParallelGC", "-Xmx" + xmx, "-Xss64m"]
+    if light:   # many short single-worker runs side by side: keep each JVM small
+        cmd += ["-XX:ParallelGCThreads=1", "-XX:TieredStopAtLevel=1", "-XX:CICompilerCount=1"]
     if deque:
         cmd.append("-Dtlc2.tool.queue.IStateQueue=StateDeque")
     cmd += ["-cp", TLA_CP, "tlc2.TLC", "-workers", str(workers), "-metadir", meta, "-noGenerateSpecTE", "-config", cfg]
